@@ -34,7 +34,7 @@ SHIPPED_MIDDLE = [("Buffer", "cobald.decorator.buffer.Buffer", {"window": 5}), (
                   ("Logger", "cobald.decorator.logger.Logger", {"name": "verif"}), ("Limiter", "cobald.decorator.limiter.Limiter", {"maximum": 10})]
 SHIPPED_HEAD = [("LinearController", "cobald.controller.linear.LinearController", {"interval": 1}),
                 ("RelativeSupplyController", "cobald.controller.relative_supply.RelativeSupplyController", {"interval": 1})]
-INVALID = ["section-plugin-raises", "logging-invalid", "yaml-syntax", "unknown-section", "missing-pipeline", "unknown-tag", "bad-keyword", "constructor-raises", "py-raises", "py-syntax",
+INVALID = ["section-plugin-raises", "logging-invalid", "yaml-syntax", "unknown-section", "missing-pipeline", "unknown-tag", "bad-keyword", "constructor-raises", "py-raises", "py-syntax", "py-ext-pyc",
            "ext-txt", "ext-json", "ext-none", "missing-file"]
 
 
@@ -46,7 +46,11 @@ def pipeline(draw, prefix):
         name = f"{prefix}e{i}"
         form = draw(st.sampled_from(["tag", "tag", "type"]))
         if i == n - 1:
-            elems.append({"cls": "FxPool", "name": name, "form": form, "kw": {"name": name}})
+            if draw(st.integers(0, 3)) == 0:
+                # a pool that is a sized container - empty (falsy) or not
+                elems.append({"cls": "FxPoolSized", "name": name, "form": form, "kw": {"name": name, "size": draw(st.sampled_from([0, 0, 2]))}})
+            else:
+                elems.append({"cls": "FxPool", "name": name, "form": form, "kw": {"name": name}})
         elif i == 0 and draw(st.booleans()):
             if draw(st.booleans()):
                 tag, path, kw = draw(st.sampled_from(SHIPPED_HEAD))
@@ -186,11 +190,18 @@ def run_case(c) -> Result:
     inv = c.get("invalid")
     # the file may be called like a module the daemon needs; it lives in a sub-directory that is not on the module search path
     stem = c.get("stem", "config")
-    name = {"ext-txt": "config.txt", "ext-json": "config.json", "ext-none": "config"}.get(inv, "conf/" + stem + (".yaml" if c["lang"] == "yaml" else ".py"))
+    name = {"ext-txt": "config.txt", "ext-json": "config.json", "ext-none": "config", "py-ext-pyc": "config.pyc"}.get(inv, "conf/" + stem + (".yaml" if c["lang"] == "yaml" else ".py"))
     d = Daemon(name, "", extra_args=c.get("cli", []), create=False, trace_delay=c.get("trace_delay"))
     try:
         text = yaml_text(c, d.log) if c["lang"] == "yaml" else py_text(c)
-        if inv != "missing-file":
+        if inv == "py-ext-pyc":
+            # a valid configuration module, but compiled: an extension that is neither .py nor .yaml/.yml
+            import py_compile
+
+            with open(d.config + ".src", "w") as f:
+                f.write(text)
+            py_compile.compile(d.config + ".src", cfile=d.config, doraise=True)
+        elif inv != "missing-file":
             with open(d.config, "w") as f:
                 f.write(text)
         d.start()
